@@ -43,6 +43,15 @@ func (r *vIRunner) Run() error {
 	return nil
 }
 
+// stateless (zero-sized) runners: real Go may give all of them one address
+type vIZRun1 struct{}
+type vIZRun2 struct{}
+
+var vIZRuns [2]int
+
+func (r *vIZRun1) Run() error { vIZRuns[0]++; return nil }
+func (r *vIZRun2) Run() error { vIZRuns[1]++; return nil }
+
 type vICfg struct{ configure.Configure }
 
 func (c *vICfg) Initialize() error        { return nil }
@@ -64,10 +73,19 @@ func VerifAppIntegration() {
 	for i := 0; i < nr; i++ {
 		comps = append(comps, &vIRunner{name: []string{"zr", "ar"}[i], log: log})
 	}
+	stateless := nd.Bool()
+	vIZRuns = [2]int{}
+	if stateless {
+		comps = append(comps, &vIZRun1{}, &vIZRun2{})
+	}
 	s := &App{Configure: &vICfg{}, registry: support.NewRegistry(), Factory: factory.Default()}
 	SetComponents(comps...)(s)
 	nd.Assert(s.initiate() == nil, "initiate ok")
 	err := s.run()
+	if stateless && err == nil {
+		nd.Cover("stateless runners")
+		nd.Assert(vIZRuns[0] == 1 && vIZRuns[1] == 1, "C13: every registered runner is invoked exactly once")
+	}
 	inits, runs := 0, 0
 	lastInit, firstRun := -1, -1
 	for i, e := range log.ev {
